@@ -246,7 +246,7 @@ class Node:
         # keys and origin-hosts as answers. This is mostly required for keeping
         # track of which requests have also received an answer, and for
         # retransmission checks.
-        self._origin_waiting_answer: dict[str, tuple[str, float]] = {}
+        self._origin_waiting_answer: dict[str, tuple[str, float, str]] = {}
         # A temporary list of sent end-by-end IDs, stored individually for each
         # origin-host, for retransmission check.
         self._sent_answers: dict[str, deque[int]] = {}
@@ -885,7 +885,7 @@ class Node:
             message_id = (f"{msg.header.hop_by_hop_identifier}:"
                           f"{msg.header.end_to_end_identifier}")
             self._origin_waiting_answer[message_id] = (
-                origin_host, time.time())
+                origin_host, time.time(), conn.ident)
 
         peer = self._find_connection_peer(conn)
         if peer:
@@ -1107,7 +1107,7 @@ class Node:
         waiting = self._origin_waiting_answer.pop(message_id, None)
         if waiting is None:
             return
-        origin_host, recv_time = waiting
+        origin_host, recv_time, _ = waiting
         process_time = time.time() - recv_time
 
         # one window per origin host, also when two connection threads record
@@ -1545,6 +1545,11 @@ class Node:
         # persist its hop-by-hop IDs over reconnect.
         if conn.host_identity in self._peer_waiting_answer:
             del self._peer_waiting_answer[conn.host_identity]
+        # likewise the notes on requests of this connection that have not
+        # been answered; nothing else would ever remove them
+        for message_id, waiting in list(self._origin_waiting_answer.items()):
+            if waiting[2] == conn.ident:
+                self._origin_waiting_answer.pop(message_id, None)
 
         # Check if this was the last available peer for an app and clear app
         # ready flag if so, resulting in `wait_for_ready` to block again.
